@@ -257,7 +257,7 @@ impl C15 {
         extra.push("    .macro inc\n    addi t0, t0, 1\n    .end_macro\n    li a7, 10\n    ecall\n".into());
         C15 {
             quick: Pool::new(1951),
-            thorough: Pool::new(97),
+            thorough: Pool::new(1201),
             extra,
         }
     }
@@ -604,6 +604,10 @@ impl Property for C15 {
     fn chunk(&self, _tier: Tier) -> u64 {
         4
     }
+    /// one case of the thorough tier analyses some thousand trees and answer sequences
+    fn hang_secs(&self, tier: Tier) -> u64 {
+        tier.pick(20, 600)
+    }
     fn run_case(&self, tier: Tier, case: u64, acc: &mut Acc) {
         acc.count("cases", 1);
         let n_programs = self.extra.len() as u64 + self.pool(tier).count();
@@ -627,7 +631,7 @@ impl Property for C15 {
         acc.count("programs", 1);
         // candidate boundaries: all for short programs, 7 evenly spaced otherwise
         let l = lines.len();
-        let nb = tier.pick(4, 6);
+        let nb = tier.pick(4, 5);
         let mut boundaries: Vec<usize> = if l <= nb + 1 { (0..=l).collect() } else { (0..=nb).map(|k| k * l / nb).collect() };
         boundaries.dedup();
         let all_cuts = cuts(&boundaries, tier.pick(2, 3));
@@ -847,7 +851,7 @@ impl Property for C15 {
     }
     fn info(&self, tier: Tier) -> Info {
         Info {
-            rule: "17 statement programs (incl. malformed statements) plus the program pool (every 1951st / 97th member of the quick S family, clean and injected) x every cut at up to 5 / 7 line boundaries into an include tree of <= 3 / <= 4 files and depth <= 3 (siblings, nesting, chains): through the in-memory reader the diagnostics, mapped back through the flattener to (code, original line, designated text), must equal those of the pasted file and every item must lie inside the file it is attributed to; for every tree every reader-answer sequence with one fault (thorough: also two faults on every 7th tree) must give exactly one error per refused import, located on its .include line, and leave the rest analysed like the program without the refused file; every 23rd tree is written to disk and the rva binary must show exactly the base file's items plus the right 'other files' counter by default and everything with --all-files. Then all 4096 include graphs on {base.s, a.s, b.s} (a file included twice as sibling or diamond, self-inclusion, 2- and 3-cycles): textual inclusion where a directive naming a file that is still open is refused; the items must equal those of the pasted text mapped back to (file, line), one error per refused directive on the directive, a cycle named as such; every answer sequence with one fault (quick: every 4th graph; thorough: all, and two faults on every 8th). Non-trivial = trees with >= 2 files / graphs with a repeated or cyclic file".into(),
+            rule: "35 statement programs (incl. malformed statements and two with a statement over several lines) plus the program pool (every 1951st / 1201st member of the quick S family, clean and injected) x every cut at up to 5 / 6 line boundaries into an include tree of <= 3 / <= 4 files and depth <= 3 (siblings, nesting, chains): through the in-memory reader the diagnostics, mapped back through the flattener to (code, original line, designated text), must equal those of the pasted file and every item must lie inside the file it is attributed to; for every tree every reader-answer sequence with one fault (thorough: also two faults on every 7th tree) must give exactly one error per refused import, located on its .include line, and leave the rest analysed like the program without the refused file; every 23rd tree is written to disk and the rva binary must show exactly the base file's items plus the right 'other files' counter by default and everything with --all-files. Then all 4096 include graphs on {base.s, a.s, b.s} (a file included twice as sibling or diamond, self-inclusion, 2- and 3-cycles): textual inclusion where a directive naming a file that is still open is refused; the items must equal those of the pasted text mapped back to (file, line), one error per refused directive on the directive, a cycle named as such; every answer sequence with one fault (quick: every 4th graph; thorough: all, and two faults on every 8th). Non-trivial = trees with >= 2 files / graphs with a repeated or cyclic file".into(),
             bounds: json!({"programs": self.cases(tier), "max_files": tier.pick(3, 4), "boundaries_per_program": tier.pick(5, 7)}),
             assumptions: vec!["a tree cut from a program is acyclic and names every file once; repeated and cyclic inclusion is covered by the 4096 include graphs on three files (two include slots per file, each empty or naming any of the three files) compared with the flattener under the same fault sequences".into()],
             states_counter: "trees",
